@@ -340,7 +340,7 @@ def run_shard(args):
                     for nm in got:
                         if expect.get(nm) is False:
                             run.viol(f"limit/non-matching-card-returned/{feat}", f"limited query returned {nm} which does not match")
-                    if limit >= sum(1 for v in expect.values() if v) + 1:
+                    if limit >= sum(1 for v in expect.values() if v or v is None) + 1:   # (cards the oracle leaves undefined may match)
                         limit = None  # every matching card fits: judge completeness too
                 for nm, e in expect.items():
                     if e is None:
